@@ -59,6 +59,12 @@ func c10Text(r *fw.Rand) string {
 		b.WriteRune(rs[r.Intn(len(rs))])
 	}
 	s := b.String()
+	if r.P(1, 6) && n > 2 {
+		// an angle bracket that opens no tag (or one that does, with what follows), inside the text
+		mid := 1 + r.Intn(len([]rune(s))-1)
+		rs2 := []rune(s)
+		s = string(rs2[:mid]) + []string{" < ", " <= ", "<<", " > ", "a<1", "1>0", "< b", "<-"}[r.Intn(8)] + string(rs2[mid:])
+	}
 	// keep the text stable under the template-text rules: no leading/trailing blanks, no comment openers
 	s = strings.TrimSpace(strings.ReplaceAll(strings.ReplaceAll(s, "//", "/"), "/*", "*"))
 	if s == "" {
